@@ -20,7 +20,7 @@ var srvDevKinds = []string{
 	"none", "drop-hdr", "dup-hdr", "hdr-after-msg", "drop-msg-first", "drop-msg-cont", "dup-msg", "envelope-inside", "data-plus1", "data-plus1-noclose", "envelope-inside-noclose", "envelope-after-empty-chunk", "overrun-one-frame", "size-plus1", "size-minus1", "size-64MiB", "size-max",
 	"dup-close", "frame-after-close", "settings-on-stream", "empty-frame", "retarget-unknown-id", "retarget-negative-id", "retarget-finished-id",
 	"win-absurd", "win-zero", "overrun", "no-response", "two-responses", "close-error", "close-first", "big-chunk",
-	"preamble-id0", "preamble-negative", "preamble-settings-again", "preamble-unknown",
+	"preamble-id0", "preamble-negative", "preamble-settings-again", "preamble-unknown", "overrun-understated",
 }
 
 var srvShapes = []string{"Unary", "ClientStream", "ServerStream", "Bidi"}
@@ -188,6 +188,19 @@ func famRawSrv(w *World, c *Case, rng *rand.Rand) {
 		frames = append(frames, sClose(0, 0, "", trl))
 		expect = "rexhausted"
 		sentComplete = map[int]bool{len(big): true}
+	case "overrun-understated":
+		// the burst is made of message frames that announce fewer bytes (0 or 1) than they carry
+		frames = []*tunnelpb.ServerToClient{sHdr(0, hdr)}
+		for i := 0; i < 12; i++ {
+			frames = append(frames, sMsg(0, uint32(i%2), make([]byte, 16384)))
+		}
+		frames = append(frames, sClose(0, 0, "", trl))
+		// (overrun and malformed at once: a caller that reads late finds the malformed frame in
+		// its queue before it learns of the overrun, so only "the call fails" is pinned here; the
+		// ResourceExhausted verdict for this kind of burst is taken on the serving side, where
+		// the close frame shows it - overrun family, kind understated-envelopes)
+		expect = "fail"
+		sentComplete = map[int]bool{}
 	case "overrun-one-frame":
 		// a single frame one byte larger than the caller's window, arriving while the caller's reader
 		// is parked on an empty queue (Invoke) or before it reads (the streaming shapes)
